@@ -31,7 +31,7 @@ package decoder
 //@   ensures err == nil <==> (cursor+3 < len(buf) && buf[cursor+1] == 'u' && buf[cursor+2] == 'l' && buf[cursor+3] == 'l')
 //@   assigns nothing
 
-//@ spec wsRun(b, lo, hi) := forall k :: lo <= k && k < hi ==> ws(b[k])
+//@ spec wsRun(b, lo, hi) := forall k :: 0 <= k && k < hi - lo ==> ws(b[lo+k])
 //@ spec digitRun(b, lo, hi) := forall k :: lo <= k && k < hi ==> digit(b[k])
 // jsonIntTok: b[s:c) is -?(0|[1-9][0-9]*)
 // tokChars: every byte of b[s:c) is a digit, except that the first may be '-' (parseInt's precondition on the token)
@@ -47,6 +47,49 @@ package decoder
 //@ spec intvalOf(b) := b[0] == '-' ? 0 - decvalN(b[1:], len(b)-1) : decvalN(b, len(b))
 //@ spec fitsInt(v, kind) := (kind == 3 ==> -128 <= v && v <= 127) && (kind == 4 ==> -32768 <= v && v <= 32767) && (kind == 5 ==> -2147483648 <= v && v <= 2147483647) && -9223372036854775808 <= v && v <= 9223372036854775807
 //@ spec fitsUint(v, kind) := (kind == 8 ==> v <= 255) && (kind == 9 ==> v <= 65535) && (kind == 10 ==> v <= 4294967295) && 0 <= v && v <= 18446744073709551615
+
+//@ func validateTrue(buf, cursor) (err)
+//@   props C05 C06
+//@   requires 0 <= cursor && cursor < len(buf)
+//@   ensures err == nil <==> (cursor+3 < len(buf) && buf[cursor+1] == 'r' && buf[cursor+2] == 'u' && buf[cursor+3] == 'e')
+//@   assigns nothing
+
+//@ func validateFalse(buf, cursor) (err)
+//@   props C05 C06
+//@   requires 0 <= cursor && cursor < len(buf)
+//@   ensures err == nil <==> (cursor+4 < len(buf) && buf[cursor+1] == 'a' && buf[cursor+2] == 'l' && buf[cursor+3] == 's' && buf[cursor+4] == 'e')
+//@   assigns nothing
+
+//@ tablelemma[C05,C06] isWhiteSpace(j, v) := v <==> ws(j)
+//@ tablelemma[C05,C06,C16] numTable(j, v) := v <==> digit(j)
+//@ spec floatChar(c) := digit(c) || c == '.' || c == 'e' || c == 'E' || c == '+' || c == '-'
+//@ tablelemma[C05,C06] floatTable(j, v) := v <==> floatChar(j)
+
+//@ func skipWhiteSpace(buf, cursor) (c)
+//@   props C05 C06
+//@   requires bufOK(buf, cursor)
+//@   ensures cursor <= c && c < len(buf) && wsRun(buf, cursor, c) && !ws(buf[c])
+//@   assigns nothing
+//@   loop 1: invariant old(cursor) <= cursor && cursor < len(buf) && wsRun(buf, old(cursor), cursor)
+//@   loop 1: decreases len(buf) - cursor
+
+// number token shape produced by the float / json.Number scanners: first byte '-' or a digit,
+// then a maximal run of floatTable bytes (the grammar proper is lemma L-num, DESIGN.md C05)
+//@ spec floatRun(b, s, c) := forall k :: 0 <= k && k < c - s - 1 ==> floatChar(b[s+1+k])
+//@ spec numTok(b, s, c) := s < c && (b[s] == '-' || digit(b[s])) && floatRun(b, s, c) && !floatChar(b[c])
+
+//@ func (*floatDecoder).decodeByte(d, buf, cursor) (res, c, err)
+//@   props C05 C06
+//@   requires bufOK(buf, cursor)
+//@   ensures err == nil ==> cursor < c && c < len(buf)
+//@   ensures err == nil && res == nil ==> c >= cursor+4 && wsRun(buf, cursor, c-4) && buf[c-4] == 'n' && buf[c-3] == 'u' && buf[c-2] == 'l' && buf[c-1] == 'l'
+//@   ensures err == nil && res != nil ==> len(res) >= 1 && c - len(res) >= cursor && wsRun(buf, cursor, c - len(res)) && ptrOf(res) == ptrOf(buf) + (c - len(res))
+//@   ensures err == nil && res != nil ==> numTok(buf, c - len(res), c)
+//@   assigns nothing
+//@   loop 1: invariant old(cursor) <= cursor && cursor < len(buf) && wsRun(buf, old(cursor), cursor)
+//@   loop 1: decreases len(buf) - cursor
+//@   loop 2: invariant start < cursor && cursor < len(buf) && floatRun(buf, start, cursor)
+//@   loop 2: decreases len(buf) - cursor
 
 //@ func (*intDecoder).parseInt(d, b) (r, err)
 //@   props C16
